@@ -140,6 +140,8 @@ def simulate(hs: History, dyn_ids: Optional[Dict[int, int]] = None) -> Tuple[Dic
                 elif c.sub != "ALL":
                     c.sub.add(mt)
                 ex.acks.setdefault(cid, []).append(dict(kind="sub", dest=None))
+                if c.will_fail is True:
+                    depart(c, conns, ex, "write-failure-own-ack")     # the acknowledgement is the write that fails
             elif t in (MT["UNSUBSCRIBE"], MT["PAUSE_SUBSCRIPTION"]):
                 mt = W.SUB.unpack(pl[:4])[0]
                 if mt == ALL:
@@ -147,6 +149,8 @@ def simulate(hs: History, dyn_ids: Optional[Dict[int, int]] = None) -> Tuple[Dic
                 elif c.sub != "ALL":
                     c.sub.discard(mt)
                 ex.acks.setdefault(cid, []).append(dict(kind="sub", dest=None))
+                if c.will_fail is True:
+                    depart(c, conns, ex, "write-failure-own-ack")
             elif t == MT["MODULE_READY"]:
                 c.pid = W.READY.unpack(pl[:4])[0]
             elif t == MT["CLIENT_SET_NAME"]:
@@ -196,6 +200,7 @@ class Obs:
 
     def __init__(self, res: dict, hs: History):
         self.crash = res["crash"]
+        self.tables = res.get("tables")
         self.frames: Dict[int, List[dict]] = {}
         self.partial: Dict[int, dict] = {}
         self.order: List[Tuple[int, dict]] = []
@@ -324,6 +329,32 @@ def check_C19(hs: History, conns, ex: Expect, ob: Obs):
         n_before = 0
         if len(seen) < total - n_before:
             out.append(("ack:logger-copy", f"logger saw {len(seen)} ACKNOWLEDGE frames, {total} control frames were acknowledgeable"))
+        # every other logger module - whatever it is subscribed to - gets the same copies as the monitor from the moment
+        # it is connected: per acknowledged module id (other than its own and the monitor's, whose direct ACKs share
+        # the stream), the ACKs it sees = the ACKs the monitor sees after this logger's own connect ACK
+        mon_id = ob.first_ack.get(1)
+        mon = ob.frames.get(1, [])
+        for cid, c in conns.items():
+            if cid == 1 or not c.logger or not c.connected or c.gone or c.will_fail or c.will_fail is None:
+                continue
+            my = ob.first_ack.get(cid)
+            if my is None or my == mon_id or any(d is not c and d.connected and d.mod_id == my for d in conns.values()):
+                continue
+            start = next((i for i, f in enumerate(mon) if f["h"]["type"] == MT["ACKNOWLEDGE"] and is_mgr(f) and f["h"]["dst_mod"] == my), None)
+            if start is None:
+                continue
+            cnt_mon: Dict[int, int] = {}
+            for f in mon[start:]:
+                if f["h"]["type"] == MT["ACKNOWLEDGE"] and is_mgr(f) and f["h"]["dst_mod"] not in (my, mon_id):
+                    cnt_mon[f["h"]["dst_mod"]] = cnt_mon.get(f["h"]["dst_mod"], 0) + 1
+            cnt_me: Dict[int, int] = {}
+            for f in ob.frames.get(cid, []):
+                if f["h"]["type"] == MT["ACKNOWLEDGE"] and is_mgr(f) and f["h"]["dst_mod"] not in (my, mon_id):
+                    cnt_me[f["h"]["dst_mod"]] = cnt_me.get(f["h"]["dst_mod"], 0) + 1
+            if cnt_me != cnt_mon:
+                diff = {k: (cnt_me.get(k, 0), cnt_mon.get(k, 0)) for k in set(cnt_me) | set(cnt_mon) if cnt_me.get(k, 0) != cnt_mon.get(k, 0)}
+                out.append(("ack:logger-copy", f"logger conn {cid} (module {my}, subscribed to {c.sub if c.sub == 'ALL' else sorted(c.sub)}): "
+                            f"ACK copies per acknowledged module (seen here, seen by the ALL-subscribed logger since this one connected) differ: {dict(list(diff.items())[:5])}"))
     return out
 
 
@@ -336,6 +367,25 @@ def check_C07(hs: History, conns, ex: Expect, ob: Obs):
     by_uid: Dict[int, list] = {}
     for f in closed:
         by_uid.setdefault(f["p"]["dec"][2], []).append(f["p"]["dec"])
+    # "leaves no trace": the manager's own tables after the history (module table, type -> subscriber index, logger
+    # set; read by the harness once run() has returned).  Whoever is in the index or the logger set must be in the
+    # module table (needs no simulation, holds on every history), and a connection the specification says has left
+    # must be in none of the three.
+    tb = ob.tables
+    if tb and "error" not in tb:
+        live = set(tb["modules"])
+        for t, cs in tb["subs"].items():
+            stale = sorted(set(cs) - live)
+            if stale:
+                out.append(("trace:index", f"subscriptions[{t}] still holds connection(s) {stale} that are not in the module table {sorted(live)}"))
+                break
+        stale = sorted(set(tb["loggers"]) - live)
+        if stale:
+            out.append(("trace:loggers", f"logger_modules still holds connection(s) {stale} that are not in the module table"))
+        for d in ex.departures:
+            c = conns.get(d["cid"])
+            if c is not None and d["cid"] in live and c.will_fail is not None:
+                out.append(("trace:table", f"conn {d['cid']} left ({d['why']}) but is still in the module table"))
     if not (1 in conns and conns[1].logger and conns[1].connected and not conns[1].gone):
         return out
     for d in ex.departures:
@@ -380,7 +430,10 @@ def check_C14(hs: History, conns, ex: Expect, ob: Obs):
     if ob.crash:
         return []      # the manager died: reported under C03
     out = []
-    if not (1 in conns and conns[1].logger and conns[1].connected and not conns[1].gone):
+    # the monitor is connection 1: a logger subscribed to everything (waited for, never skipped), or - in histories
+    # that say so - an ordinary module subscribed to everything that the history keeps writable in every round
+    if not (1 in conns and conns[1].connected and not conns[1].gone and
+            (conns[1].logger or (getattr(hs, "plain_monitor", False) and conns[1].sub == "ALL"))):
         return out
     mon = ob.frames.get(1, [])
     notices = [f["p"]["dec"] for f in mon if f["h"]["type"] == MT["FAILED_MESSAGE"] and is_mgr(f) and f["p"]["dec"]]
@@ -477,6 +530,8 @@ def check_C18(hs: History, conns, ex: Expect, ob: Obs):
     reports: Dict[int, List[tuple]] = {}
     stat = (MT["TIMING_MESSAGE"], MT["MESSAGE_TRAFFIC"])
     first_timing = first_traffic = True
+    ccount: Dict[int, int] = {}          # frames published by clients (not by the manager), per type
+    last_snap: Dict[int, int] = {}       # ... as of the last MESSAGE_TRAFFIC sub-message seen
     for f in mon:
         t = f["h"]["type"]
         mgr = is_mgr(f)
@@ -495,9 +550,20 @@ def check_C18(hs: History, conns, ex: Expect, ob: Obs):
         if t == MT["MESSAGE_TRAFFIC"] and mgr and f["p"]["dec"]:
             _, seq, sub, ty, ct = f["p"]["dec"][:5]
             reports.setdefault(seq, []).append((sub, ty, ct, dict(fcount)))
+            last_snap = dict(ccount)
             continue
+        if f["xid"] > 0:
+            ccount[t] = ccount.get(t, 0) + 1
         tcount[t] = tcount.get(t, 0) + 1
         fcount[t] = fcount.get(t, 0) + 1
+    # a history that ends with quiet rounds spanning more than a reporting interval: whatever clients published before
+    # them has been reported by then (with or without TIMING_MESSAGE enabled) - an interval with traffic and no report
+    # at all is a report with wrong counts
+    if getattr(hs, "quiet_end", False):
+        unrep = {t: n - last_snap.get(t, 0) for t, n in ccount.items() if n - last_snap.get(t, 0)}
+        if unrep:
+            out.append(("traffic:unreported", f"messages forwarded and never reported although more than one reporting interval "
+                        f"elapsed afterwards (timing messages {'on' if hs.timing else 'off'}): type -> count {dict(list(sorted(unrep.items()))[:6])}"))
     # traffic: group consecutive sub-messages of one seqno; the interval is what was forwarded since the
     # previous report (the monitor sees the sub-messages right after the interval ends)
     prev_snapshot: Dict[int, int] = {}
@@ -545,15 +611,21 @@ CHECKERS = dict(C01=check_C01, C03=check_C03, C05=check_C05, C06=check_C06, C07=
 def gen_monitored(rng: random.Random, flavor: str, nrounds: int = 16) -> History:
     """histories with connection 1 as logger+ALL monitor and well-separated module ids, so that the
     specification's verdict is unambiguous.  flavor: routing | acks | ids | depart | drops | stats"""
-    hs = History(loglevel=rng.choice([60, 40]) if flavor == "drops" else rng.choice([60, 60, 60, 40, 20]), timing=True,
+    # stats: the manager may be started without TIMING_MESSAGE (-T); the traffic report must be exact all the same
+    hs = History(loglevel=rng.choice([60, 40]) if flavor == "drops" else rng.choice([60, 60, 60, 40, 20]),
+                 timing=not (flavor == "stats" and rng.random() < 0.3),
                  timecode=rng.random() < 0.15, tag="mon-" + flavor)
     now = 0
     hs.round([], [], now, accept=True)
-    hs.round([(1, hs.connect_v2(logger=1, mod_id=0, pid=11))], [1], now)
+    # shared: nobody is a logger (connection 1 is an ordinary module subscribed to everything and always writable) and
+    # module ids are shared between instances that allow it - routing is judged on every connection's own stream
+    hs.plain_monitor = flavor == "shared"
+    hs.round([(1, hs.connect_v2(logger=0 if flavor == "shared" else 1, mod_id=0, pid=11))], [1], now)
     hs.round([(1, hs.sub("sub", ALL))], [1], now)
     nmax = rng.choice([3, 4, 5, 6])
     idpool = [10, 11, 12, 13, 14, 15, 16, 17]
     rng.shuffle(idpool)
+    shared_ids = [rng.choice([20, 21]), rng.choice([20, 22])]
     st: Dict[int, dict] = {1: dict(connected=True, gone=False, mid=100, sub="ALL")}
     pending_faults: List[int] = []
     for r in range(nrounds):
@@ -571,13 +643,15 @@ def gen_monitored(rng: random.Random, flavor: str, nrounds: int = 16) -> History
                     mid = rng.choice([0, 0, 10, 10, 11, 100, 101, -1, 1])
                     nm = rng.choice([b"", b"", b"A", b"B"])
                     am = rng.choice([0, 0, 1])
+                elif flavor == "shared" and rng.random() < 0.75:
+                    mid, nm, am = rng.choice(shared_ids), b"", 1
                 else:
                     mid = rng.choice([0, idpool.pop()]) if idpool else 0
                     nm, am = b"", 0
                 s["mid"] = mid
                 s["connected"] = True     # (maybe refused: the simulator decides)
-                if rng.random() < 0.6:
-                    ready.append((c, hs.connect_v2(logger=1 if (flavor in ("routing", "drops") and rng.random() < 0.15) else 0,
+                if rng.random() < 0.6 or am:
+                    ready.append((c, hs.connect_v2(logger=1 if (flavor in ("routing", "drops", "acks") and rng.random() < (0.3 if flavor == "acks" else 0.15)) else 0,
                                                    allow_multiple=am, mod_id=mid, pid=500 + c, name=nm)))
                 else:
                     ready.append((c, hs.connect_v1(src_mod=mid if mid >= -32768 else 0)))
@@ -641,7 +715,7 @@ def gen_monitored(rng: random.Random, flavor: str, nrounds: int = 16) -> History
                 s["gone"] = True
                 ready.append((c, hs.reset()))
         allc = list(range(1, hs.nclients + (2 if accept else 1)))
-        p_unw = 0.35 if flavor == "drops" else (0.12 if flavor in ("routing",) else (0.0 if flavor == "stats" else 0.03))
+        p_unw = 0.35 if flavor == "drops" else (0.12 if flavor in ("routing", "shared") else (0.0 if flavor == "stats" else 0.03))
         writable = [c for c in allc if c == 1 or rng.random() >= p_unw]
         if pending_faults:
             accept_now = False
@@ -663,4 +737,5 @@ def gen_monitored(rng: random.Random, flavor: str, nrounds: int = 16) -> History
     if flavor == "stats" or rng.random() < 0.3:
         hs.round([], [], now + rng.choice([5, 6]))
         hs.round([], [], now + 12)
+        hs.quiet_end = True
     return hs
